@@ -22,9 +22,11 @@ REPO = os.environ.get('VERIF_REPO', '/repo')
 SRC = 'kingdon/polynomial.py'
 
 KT = {'int': 'Int', 'bool': 'Bool', 'atom': 'Py.Atom', 'mono': 'Py.Mono', 'omono': 'Option Py.Mono', 'args': 'Py.Poly',
-      'poly': 'Py.Poly', 'rat': 'Py.Rat', 'orat': 'Option Py.Rat'}
+      'poly': 'Py.Poly', 'rat': 'Py.Rat', 'orat': 'Option Py.Rat',
+      'ac': 'Int', 'ilist': 'List Int', 'chains': 'Py.Dict Int (List Int)', 'pdict': 'Py.Dict Int β', 'T': 'β', 'tlist': 'List β',
+      'opfun': 'β → β → Py.M β'}
 DEFAULT = {'int': '0', 'bool': 'false', 'atom': 'Py.Atom.none', 'mono': '[]', 'omono': 'none', 'args': '[]', 'poly': '[]',
-           'rat': '([], [])', 'orat': 'none'}
+           'rat': '([], [])', 'orat': 'none', 'ac': '0', 'ilist': '[]', 'chains': '[]', 'pdict': '[]', 'tlist': '[]'}
 ONE = '[[Py.Atom.num 1]]'
 
 
@@ -33,8 +35,11 @@ class Unsupported(Exception):
 
 
 class T:
-    def __init__(self, qual, lean, params, ret, locals=None, fuel=None):
+    def __init__(self, qual, lean, params, ret, locals=None, fuel=None, file=None, generic=False, generator=False):
         self.qual, self.lean, self.params, self.ret = qual, lean, params, ret
+        self.file = file or SRC       # python file the function lives in
+        self.generic = generic        # generic in the type β of the multiplied values
+        self.generator = generator    # a generator: the translation returns the list of yielded values
         self.locals = locals or {}
         self.fuel = fuel or []      # fuel expressions (Lean, over the locals) of the `while` loops in order of appearance
         self.cls = qual.split('.')[0] if '.' in qual else None
@@ -47,7 +52,12 @@ RADD_L = {'na': 'poly', 'da': 'poly', 'nb': 'poly', 'db': 'poly', 'nn': 'poly', 
 RMUL_L = {'na': 'poly', 'da': 'poly', 'nb': 'poly', 'db': 'poly', 'numer': 'poly', 'denom': 'poly', 'fl1': 'mono', 'fl2': 'mono',
           'nnn': 'mono', 'nnd': 'mono', 'p1': 'int', 'p2': 'int', 'f1': 'atom', 'f2': 'atom'}
 
+CG = 'kingdon/codegen.py'
 TARGETS = [
+    T('AdditionChains.minimal_chains', 'minimal_chains', [('self', 'ac')], 'chains',
+      {'chains': 'chains', 'chain': 'ilist', 'right_summand': 'int', 'left_summand': 'int', 'value': 'int'}, fuel=['(self + 1).toNat'], file=CG),
+    T('power_supply', 'power_supply', [('operation', 'opfun'), ('x', 'T'), ('exponents', 'int')], 'tlist',
+      {'target': 'int', 'addition_chains': 'ac', 'powers': 'pdict', 'chain': 'ilist', 'step': 'int'}, file=CG, generic=True, generator=True),
     T('compare', 'compare', [('a', 'omono'), ('b', 'omono')], 'int', {'la': 'int', 'lb': 'int', 'l': 'int'}),
     T('Polynomial.__eq__', 'poly_eq_int', [('self', 'poly'), ('other', 'int')], 'bool'),
     T('Polynomial.__eq__', 'poly_eq', [('self', 'poly'), ('other', 'poly')], 'bool'),
@@ -68,13 +78,15 @@ TARGETS = [
     T('RationalPolynomial.__truediv__', 'rat_div', [('self', 'rat'), ('other', 'rat')], 'rat'),
     T('RationalPolynomial.__rtruediv__', 'rat_rdiv_int', [('self', 'rat'), ('other', 'int')], 'rat'),
     T('RationalPolynomial.__bool__', 'rat_bool', [('self', 'rat')], 'bool'),
+    T('Polynomial.__pow__', 'poly_pow', [('self', 'poly'), ('power', 'int')], 'poly', {'last': 'poly'}),
+    T('RationalPolynomial.__pow__', 'rat_pow', [('self', 'rat'), ('power', 'int')], 'rat', {'last': 'rat'}),
 ]
 
 # dispatch of operators between objects: (op, kind left, kind right) -> (lean function, swap operands)
 BINOP = {('Add', 'poly', 'poly'): ('poly_add', False), ('Mult', 'poly', 'poly'): ('poly_mul', False),
          ('Mult', 'poly', 'int'): ('poly_mul_int', False), ('Mult', 'int', 'poly'): ('poly_mul_int', True),   # __rmul__ = __mul__
          ('Add', 'rat', 'rat'): ('rat_add', False), ('Mult', 'rat', 'rat'): ('rat_mul', False),
-         ('Mult', 'rat', 'int'): ('rat_mul_int', False)}
+         ('Mult', 'rat', 'int'): ('rat_mul_int', False), ('Div', 'int', 'rat'): ('rat_rdiv_int', True)}      # int / rat: __rtruediv__
 EQ = {('poly', 'int'): 'poly_eq_int', ('poly', 'poly'): 'poly_eq', ('rat', 'int'): 'rat_eq_int', ('rat', 'rat'): 'rat_eq'}
 NEG = {'poly': 'poly_neg', 'rat': 'rat_neg'}
 METHODS = {('poly', '__bool__'): ('poly_bool', 'bool'), ('rat', 'inv'): ('rat_inv', 'orat')}
@@ -97,6 +109,8 @@ PINNED_TEXT = {
         self.args = [[1, coeff]] if coeff[0] != '-' else [[-1, coeff[1:]]]''',
  'Polynomial.__len__': '''def __len__(self):
     return len(self.args)''',
+ 'codegen:AdditionChains.__getitem__': '''def __getitem__(self, n: int) -> Tuple[int, ...]:
+    return self.minimal_chains[n]''',
  'Polynomial.__getitem__': '''def __getitem__(self, item):
     return self.args[item]''',
  'RationalPolynomial.__init__': '''def __init__(self, numer, denom=None):
@@ -172,7 +186,7 @@ class Tr:
                 txt = ast.unparse(c)
                 if txt in ('(list, tuple)',):
                     return k == 'args'
-                if txt in ('(int, float)',):
+                if txt in ('(int, float)', 'int'):
                     return k == 'int'
             return None
         if isinstance(test, ast.Compare) and len(test.ops) == 1 and isinstance(test.ops[0], (ast.NotEq, ast.Eq)):
@@ -240,11 +254,32 @@ class Tr:
             base, kb = self.E(node.value)
             if kb == 'poly' and node.attr == 'args':
                 return base, 'args'
+            if kb == 'ac' and node.attr == 'limit':
+                return base, 'int'
             if kb == 'rat' and node.attr in ('numer', 'denom'):
                 return f'{base}.{1 if node.attr == "numer" else 2}', 'poly'
             raise Unsupported(f'attribute {node.attr} of kind {kb}')
         if isinstance(node, ast.Tuple):
-            raise Unsupported('tuple expression')
+            # a tuple of ints (an addition chain): `(1,)`, `(*chain, value)`
+            parts = []
+            for e in node.elts:
+                if isinstance(e, ast.Starred):
+                    c, k = self.E(e.value)
+                    if k != 'ilist':
+                        raise Unsupported('starred element of kind ' + str(k))
+                    parts.append(c)
+                else:
+                    c, k = self.E(e)
+                    if k != 'int':
+                        raise Unsupported('tuple element of kind ' + str(k))
+                    parts.append(f'[{c}]')
+            return '(' + ' ++ '.join(parts) + ')', 'ilist'
+        if isinstance(node, ast.Dict) and len(node.keys) == 1 and want in ('chains', 'pdict'):
+            kc, kk = self.E(node.keys[0])
+            vc, vk = self.E(node.values[0], 'ilist' if want == 'chains' else 'T')
+            if kk != 'int':
+                raise Unsupported('dict key kind')
+            return f'[({kc}, {vc})]', want
         if isinstance(node, ast.List):
             if any(isinstance(e, ast.Starred) for e in node.elts):
                 # [x, *rest] : a monomial
@@ -321,6 +356,13 @@ class Tr:
                 return ('true' if s else 'false'), 'bool'
             op = type(node.ops[0]).__name__
             L, R = node.left, node.comparators[0]
+            if op in ('In', 'NotIn'):
+                a, ka = self.E(L)
+                b, kb = self.E(R)
+                if ka == 'int' and kb in ('chains', 'pdict'):
+                    c = f'(Py.dictHas {b} {a})'
+                    return (c if op == 'In' else f'(!{c})'), 'bool'
+                raise Unsupported(f'`in` between {ka} and {kb}')
             if op in ('Is', 'IsNot') and isinstance(R, ast.Constant) and R.value is None:
                 a, ka = self.E(L)
                 if ka not in ('atom', 'omono'):
@@ -392,6 +434,14 @@ class Tr:
                 return f'(← Py.getItem {v} {i})', 'atom'
             if kv == 'omono':
                 return f'(← Py.ogetItem {v} {i})', 'atom'
+            if kv == 'ilist':
+                return f'(← Py.getItem {v} {i})', 'int'
+            if kv == 'chains':
+                return f'(← Py.dictGet {v} {i})', 'ilist'
+            if kv == 'pdict':
+                return f'(← Py.dictGet {v} {i})', 'T'
+            if kv == 'ac':          # AdditionChains.__getitem__ is self.minimal_chains[n] (a cached property: a pure function of the limit)
+                return f'(← Py.dictGet (← minimal_chains {v}) {i})', 'ilist'
             raise Unsupported(f'subscript on kind {kv}')
         if isinstance(node, ast.Call):
             return self.call(node, want)
@@ -477,11 +527,50 @@ class Tr:
                 raise Unsupported('isinstance form')
             if f.id == 'range' and len(node.args) == 2:
                 return f'(Py.range {self.E(node.args[0])[0]} {self.E(node.args[1])[0]})', 'ilist'
+            if f.id == 'any' and len(node.args) == 1 and isinstance(node.args[0], ast.GeneratorExp) and len(node.args[0].generators) == 1 \
+                    and not node.args[0].generators[0].ifs and isinstance(node.args[0].generators[0].target, ast.Name):
+                g = node.args[0].generators[0]
+                it, kit = self.E(g.iter)
+                if kit != 'ilist':
+                    raise Unsupported('any() over kind ' + str(kit))
+                v = g.target.id
+                saved = self.kinds.get(v)
+                self.kinds[v] = 'int'
+                body = self.truth(node.args[0].elt)
+                if saved is None:
+                    del self.kinds[v]
+                else:
+                    self.kinds[v] = saved
+                if '←' in body:
+                    raise Unsupported('any() whose condition can raise')
+                return f'(({it}).any (fun {v} => {body}))', 'bool'
+            if f.id == 'AdditionChains' and len(node.args) == 1:
+                c, k = self.E(node.args[0])
+                if k != 'int':
+                    raise Unsupported('AdditionChains(' + str(k) + ')')
+                return c, 'ac'
+            if f.id == 'power_supply' and len(node.args) == 2:
+                x, kx = self.E(node.args[0])
+                n, kn = self.E(node.args[1])
+                if kx not in ('poly', 'rat') or kn != 'int':
+                    raise Unsupported(f'power_supply({kx}, {kn})')
+                # operation defaults to operator.mul: the * of the operand's class
+                return f'(← power_supply {"poly_mul" if kx == "poly" else "rat_mul"} {x} {n})', ('plist' if kx == 'poly' else 'rlist')
+            if self.kinds.get(f.id) == 'opfun' and len(node.args) == 2:
+                a, ka = self.E(node.args[0]); b, kb = self.E(node.args[1])
+                if ka != 'T' or kb != 'T':
+                    raise Unsupported('operation on kinds ' + str((ka, kb)))
+                return f'(← {f.id} {a} {b})', 'T'
             if f.id == 'compare' and len(node.args) == 2:
                 return f'(← compare {self.E(node.args[0], "omono")[0]} {self.E(node.args[1], "omono")[0]})', 'int'
         if isinstance(f, ast.Attribute):
             if ast.unparse(f) == 'itertools.product' and len(node.args) == 2:
                 return f'(Py.product {self.E(node.args[0])[0]} {self.E(node.args[1])[0]})', 'iprod'
+            if f.attr == 'values' and not node.args and isinstance(f.value, ast.Call) and isinstance(f.value.func, ast.Attribute) \
+                    and f.value.func.attr == 'copy' and not f.value.args:
+                d_, kd = self.E(f.value.func.value)
+                if kd == 'chains':      # a snapshot of the values: the loop below does not see what it adds
+                    return f'(Py.dictValues {d_})', 'ilistlist'
             recv, kr = self.E(f.value)
             if f.attr == 'copy' and not node.args:
                 if kr == 'omono':
@@ -531,11 +620,23 @@ class Tr:
                 raise Unsupported(f'returns {k} where a truth value is declared')
             out.append(f'{ind}return {c}')
             return True
+        if isinstance(st, ast.Expr) and isinstance(st.value, ast.Yield) and self.t.generator:
+            c, k = self.E(st.value.value, 'T')
+            out.append(f'{ind}out__ := out__ ++ [{c}]')
+            return False
         if isinstance(st, ast.Continue):
             out.append(f'{ind}continue')
             return True
         if isinstance(st, ast.Assign):
             # chained `a = b = 0` and tuple targets `x, y = e1, e2`
+            if len(st.targets) == 1 and isinstance(st.targets[0], ast.Tuple) and len(st.targets[0].elts) == 2 \
+                    and isinstance(st.targets[0].elts[0], ast.Starred) and isinstance(st.targets[0].elts[1], ast.Name):
+                # `*_, last = <iterable>`: the last element (ValueError when there is none)
+                c, k = self.E(st.value)
+                if k not in ('plist', 'rlist'):
+                    raise Unsupported('starred unpacking of kind ' + str(k))
+                self.assign_name(st.targets[0].elts[1].id, f'(← Py.lastOf {c})', 'poly' if k == 'plist' else 'rat', ind, out)
+                return False
             if len(st.targets) == 1 and isinstance(st.targets[0], ast.Tuple):
                 tg = st.targets[0]
                 if not (isinstance(st.value, ast.Tuple) and len(st.value.elts) == len(tg.elts) and all(isinstance(e, ast.Name) for e in tg.elts)):
@@ -561,7 +662,7 @@ class Tr:
                 return False
             if all(isinstance(tg, ast.Name) for tg in st.targets):
                 first = st.targets[0].id
-                c, k = self.E(st.value, self.kinds.get(first) if self.kinds.get(first) in ('args', 'poly', 'mono', 'atom', 'omono') else None)
+                c, k = self.E(st.value, self.kinds.get(first) if self.kinds.get(first) in ('args', 'poly', 'mono', 'atom', 'omono', 'chains', 'pdict', 'ilist') else None)
                 if len(st.targets) > 1:
                     tname = self.fresh('t')
                     out.append(f'{ind}let {tname} : {KT[k]} := {c}')
@@ -569,6 +670,16 @@ class Tr:
                 for tg in st.targets:
                     self.assign_name(tg.id, c, k, ind, out)
                 return False
+            if len(st.targets) == 1 and isinstance(st.targets[0], ast.Subscript) and isinstance(st.targets[0].value, ast.Name):
+                nm = st.targets[0].value.id
+                k = self.kinds.get(nm)
+                if k in ('chains', 'pdict'):
+                    i, ki = self.E(st.targets[0].slice)
+                    v, kv = self.E(st.value, 'ilist' if k == 'chains' else 'T')
+                    if ki != 'int':
+                        raise Unsupported('dict key kind')
+                    out.append(f'{ind}{self.name(nm)} := Py.dictSet {self.name(nm)} {i} {v}')
+                    return False
             raise Unsupported('assignment target')
         if isinstance(st, ast.AugAssign):
             op = type(st.op).__name__
@@ -647,10 +758,10 @@ class Tr:
                 a, b = (e.id for e in st.target.elts)
                 out.append(f'{ind}for ({a}, {b}) in {it} do')
                 self.loopvars = getattr(self, 'loopvars', set()) | {a, b}
-            elif kit == 'ilist' and isinstance(st.target, ast.Name):
+            elif kit in ('ilist', 'ilistlist') and isinstance(st.target, ast.Name):
                 out.append(f'{ind}for {st.target.id} in {it} do')
                 self.loopvars = getattr(self, 'loopvars', set()) | {st.target.id}
-                self.kinds[st.target.id] = 'int'
+                self.kinds[st.target.id] = 'int' if kit == 'ilist' else 'ilist'
             else:
                 raise Unsupported('for loop form')
             self.block(st.body, ind + '  ', out)
@@ -684,10 +795,15 @@ class Tr:
             if any(isinstance(n, ast.Name) and n.id == nm for n in ast.walk(self.fn)):
                 out.append(f'  let mut {nm} : {KT[k]} := {DEFAULT[k]}')
         body = self.fn.body
+        if t.generator:
+            out.append('  let mut out__ : List β := []')
         done = self.block(body, '  ', out)
         if not done:
-            raise Unsupported('function can fall off its end')
-        return f'def {t.lean} {sig} : Py.M ({KT[t.ret]}) := do\n' + '\n'.join(out)
+            if not t.generator:
+                raise Unsupported('function can fall off its end')
+            out.append('  return out__')
+        gen = '{β : Type} ' if t.generic else ''
+        return f'def {t.lean} {gen}{sig} : Py.M ({KT[t.ret]}) := do\n' + '\n'.join(out)
 
 
 def generate(stub=None):
@@ -697,7 +813,7 @@ def generate(stub=None):
     report = {}
     pinned_ok = True
     for q, ref in PINNED_TEXT.items():
-        fn = find_func(tree, q)
+        fn = find_func(ast.parse(open(os.path.join(REPO, CG)).read()), q.split(':', 1)[1]) if q.startswith('codegen:') else find_func(tree, q)
         got = norm(fn) if fn is not None else None
         want = norm(ast.parse(ref).body[0])
         if got != want:
@@ -706,14 +822,17 @@ def generate(stub=None):
     parts = ['/-\n  GENERATED by harness/pytolean_poly.py from kingdon/polynomial.py — do not edit.\n'
              '  One definition per (method, static kinds of its operands); see the docstring of the translator.\n-/\n'
              'import Kingdon.Model.PyPoly\nset_option linter.unusedVariables false\nnamespace Kingdon.SrcPoly\nopen Kingdon\n']
+    trees = {SRC: tree}
     for t in TARGETS:
-        fn = find_func(tree, t.qual)
-        hdr = f'/- {SRC}:{fn.lineno if fn else "?"}  {t.qual}  as `{t.lean}` ({", ".join(f"{p}: {k}" for p, k in t.params)})\n'
+        if t.file not in trees:
+            trees[t.file] = ast.parse(open(os.path.join(REPO, t.file)).read())
+        fn = find_func(trees[t.file], t.qual)
+        hdr = f'/- {t.file}:{fn.lineno if fn else "?"}  {t.qual}  as `{t.lean}` ({", ".join(f"{p}: {k}" for p, k in t.params)})\n'
         if fn is not None:
-            hdr += textwrap.dedent(ast.get_source_segment(open(path).read(), fn)).replace('-/', '- /') + '\n-/\n'
+            hdr += textwrap.dedent(ast.get_source_segment(open(os.path.join(REPO, t.file)).read(), fn)).replace('-/', '- /').replace('/-', '/ -') + '\n-/\n'
         else:
             hdr += 'NOT FOUND\n-/\n'
-        sig = ' '.join(f'({p} : {KT[k]})' for p, k in t.params)
+        sig = ('{β : Type} ' if t.generic else '') + ' '.join(f'({p} : {KT[k]})' for p, k in t.params)
         try:
             if fn is None:
                 raise Unsupported('function not found')
@@ -743,7 +862,10 @@ def write_if_changed(dst=None):
         try:
             from harness import leancheck
         except ImportError:
-            import leancheck
+            try:
+                import leancheck
+            except ImportError:
+                return report
         if os.path.abspath(dst).startswith(os.path.abspath(leancheck.LEAN)):
             stub = {}
             for _ in range(4):
